@@ -116,7 +116,8 @@ def run_cli(ctx):
                       ("key block in traditional EC PRIVATE KEY form BEFORE the certificate", "sec1first"),
                       # a certificate file in a form gopki reads no certificate from: it is still the user's certificate file
                       ("certificate under the label TRUSTED CERTIFICATE", "trusted"), ("byte order mark in front of the file", "bom")):
-        for fl, ans, cls in ((F(), b"n\n", "other"), (F(a=True), b"n\n", "other"), (F(a=True), b"", "other")):
+        # (with the answer `y` the difference between "nothing to do" and "asks and regenerates" shows)
+        for fl, ans, cls in ((F(), b"n\n", "other"), (F(a=True), b"n\n", "other"), (F(a=True), b"", "other"), (F(), b"y\n", "y")):
             d = fresh("resaved-%d" % len(rows))
             sign(d, [], b"")
             pem_path = os.path.join(d, "r.pem")
@@ -148,6 +149,8 @@ def run_cli(ctx):
             st = os.stat(pem_path)
             open(pem_path, "w").write(pem)
             os.utime(pem_path, ns=(st.st_atime_ns, st.st_mtime_ns))
+            if cls == "y" and how != "tail":
+                continue        # with consent: a key gopki cannot use makes the run fail (C14), a readable variant is simply regenerated - not this slice's topic
             observe("%s, flags %s, answer %r" % (what, "".join(k for k, v in fl.items() if v), ans), d, ARGS(fl), fl, facts, cls, ans)
     # 6. unusual but valid layouts (no dangling issuer, no cycle, no two files with one alias): the first default run writes
     #    <config path without extension>.pem for every config and nothing else; an immediate second run - here with the
